@@ -37,6 +37,8 @@ struct Node {
 	ku: u16,
 	nc: Option<(Vec<SubtreeSpec>, Vec<SubtreeSpec>)>,
 	window: (i64, i64),
+	/// list every key usage twice (the same set, as far as the property goes)
+	ku_dup: bool,
 }
 
 #[derive(Clone, Debug)]
@@ -57,6 +59,7 @@ fn ca_node() -> Node {
 		ku: 0,
 		nc: None,
 		window: (T[0], T[9]),
+		ku_dup: false,
 	}
 }
 
@@ -200,8 +203,15 @@ fn build(c: &ChainSpec, keys: &[&PoolKey], rng: &mut Rng) -> Result<Built, Strin
 		s.not_after = TimeSpec::utc(node.window.1);
 		s
 	};
+	let dup = |node: &Node, mut p: rcgen::CertificateParams| -> rcgen::CertificateParams {
+		if node.ku_dup {
+			let d = p.key_usages.clone();
+			p.key_usages.extend(d);
+		}
+		p
+	};
 	let kroot = *rng.pick(keys);
-	let root = mk(&c.root, "verif root ca").to_rcgen(None).self_signed(&kroot.kp).map_err(|e| format!("root: {}", e))?;
+	let root = dup(&c.root, mk(&c.root, "verif root ca").to_rcgen(None)).self_signed(&kroot.kp).map_err(|e| format!("root: {}", e))?;
 	let mut inters = Vec::new();
 	let mut signer_cert = &root;
 	let mut signer_key = kroot;
@@ -209,8 +219,7 @@ fn build(c: &ChainSpec, keys: &[&PoolKey], rng: &mut Rng) -> Result<Built, Strin
 	for (i, n) in c.inters.iter().enumerate() {
 		ikeys.push(*rng.pick(keys));
 		let k = ikeys[i];
-		let cert = mk(n, &format!("verif intermediate ca {}", i))
-			.to_rcgen(None)
+		let cert = dup(n, mk(n, &format!("verif intermediate ca {}", i)).to_rcgen(None))
 			.signed_by(&k.kp, signer_cert, &signer_key.kp)
 			.map_err(|e| format!("intermediate {}: {}", i, e))?;
 		inters.push(cert);
@@ -397,6 +406,10 @@ fn directed() -> Vec<(String, ChainSpec)> {
 		let mut c = base(0);
 		c.root.ku = ku;
 		v.push((format!("ca-ku:root:{:#011b}", ku), c));
+		let mut c = base(1);
+		c.inters[0].ku = ku;
+		c.inters[0].ku_dup = true;
+		v.push((format!("ca-ku:intermediate-listed-twice:{:#011b}", ku), c));
 	}
 	v
 }
